@@ -18,9 +18,15 @@ Definition mem (s : string) (l : list string) : bool := existsb (String.eqb s) l
 Fixpoint assoc (s : string) (t : ctable) : option (list string) :=
   match t with [] => None | (k, v) :: t' => if String.eqb s k then Some v else assoc s t' end.
 
-(* FindClass: exact name, then lower case; the registry keys are lower case *)
+(* type names that are Go aliases of another type (typeAliases / typeName in typep.go, repair C16-6): typep and
+   subtypep replace them by the name the objects carry in their hierarchy *)
+Definition alias (s : string) : string :=
+  if String.eqb s "short-float" then "single-float" else if String.eqb s "byte" then "octet" else s.
+Definition tname (s : string) : string := alias (lower s).
+
+(* FindClass (after typeName): exact name, then lower case; the registry keys are lower case *)
 Definition find_class (t : ctable) (s : string) : option (string * list string) :=
-  match assoc (lower s) t with Some v => Some (lower s, v) | None => None end.
+  match assoc (tname s) t with Some v => Some (tname s, v) | None => None end.
 
 (* subtypep on two symbols (subtypep.go with et1 = et2 = nil): both classes found, and the same class or
    pt1.Inherits(pt2) *)
@@ -53,12 +59,14 @@ Definition subtypep_d (t : ctable) (d1 d2 : tdes) : sres :=
   | _, _ => SBool false
   end.
 
-(* typep of an object of kind k (typep.go): nil is only of type null; the empty list is of type null and
-   of every type of its hierarchy; otherwise membership in Hierarchy() up to case *)
+(* typep of an object of kind k (typep.go, with the repair C16-8): nil is treated as the empty list; the empty
+   list is of type null and of every type of its hierarchy; otherwise membership in Hierarchy() up to case.
+   (Before C16-8 nil was of type null only.) *)
 Definition hier (kt : ctable) (k : string) : list string := match assoc k kt with Some h => h | None => [] end.
+Definition as_list_kind (k : string) : string := if String.eqb k "nil" then "empty-list" else k.
 Definition typep_t (kt : ctable) (k : string) (ty : string) : bool :=
-  if String.eqb k "nil" then String.eqb (lower ty) "null"
-  else (String.eqb k "empty-list" && String.eqb (lower ty) "null") || mem (lower ty) (map lower (hier kt k)).
+  let k' := as_list_kind k in
+  (String.eqb k' "empty-list" && String.eqb (tname ty) "null") || mem (tname ty) (map lower (hier kt k')).
 (* type-of (type-of.go) *)
 Definition type_of_t (kt : ctable) (k : string) : string :=
   if String.eqb k "nil" || String.eqb k "empty-list" then "null" else hd "" (hier kt k).
@@ -84,7 +92,7 @@ Definition kinds_upward (t kt : ctable) : bool :=
                       | Some (_, sh) => forallb (fun u => typep_t kt (fst r) u) sh
                       | None => true
                       end)
-            (if String.eqb (fst r) "nil" then ["null"] else if String.eqb (fst r) "empty-list" then "null" :: snd r else snd r)) kt.
+            (if String.eqb (as_list_kind (fst r)) "empty-list" then "null" :: hier kt "empty-list" else snd r)) kt.
 (* kinds on which typep and subtypep agree: typep x ty = subtypep (type-of x) ty for every class name and
    every hierarchy symbol ty *)
 Definition probe_types (t kt : ctable) : list string := names t ++ flat_map snd kt ++ ["null"; "atom"; "no-such-type"].
@@ -125,9 +133,9 @@ Theorem subtypep_trans : forall t, table_trans t = true ->
   forall a b c, subtypep_t t a b = true -> subtypep_t t b c = true -> subtypep_t t a c = true.
 Proof.
   intros t T a b c H1 H2. unfold subtypep_t, find_class in *.
-  destruct (assoc (lower a) t) as [sa|] eqn:Ea; try discriminate.
-  destruct (assoc (lower b) t) as [sb|] eqn:Eb; try discriminate.
-  destruct (assoc (lower c) t) as [sc|] eqn:Ec; try discriminate.
+  destruct (assoc (tname a) t) as [sa|] eqn:Ea; try discriminate.
+  destruct (assoc (tname b) t) as [sb|] eqn:Eb; try discriminate.
+  destruct (assoc (tname c) t) as [sc|] eqn:Ec; try discriminate.
   apply orb_true_iff in H1. apply orb_true_iff in H2. apply orb_true_iff.
   destruct H1 as [H1|H1].
   - apply String.eqb_eq in H1. rewrite H1 in Ea. rewrite Ea in Eb. inversion Eb; subst. rewrite H1. assumption.
